@@ -229,8 +229,8 @@ Print Assumptions searcher_spec_partial.
 (* ---- nested trees ---- *)
 From Bluge Require Import Search.SearchersProofsTree Search.SearchersProofsGeneral.
 
-(* search_exact for ARBITRARILY NESTED boolean queries: every clause is a term query, match-none or
-   again a boolean query (qok d q: depth at most d, every minShould >= 0, no boolean consisting of
+(* search_exact for ARBITRARILY NESTED boolean queries: every clause is a term query, match-all,
+   match-none or again a boolean query (qok d q: depth at most d, every minShould >= 0, no boolean consisting of
    must-not clauses only — that one compiles to a match-all searcher); any number of must / should /
    must-not clauses (slice disjunctions up to DisjunctionHeapTakeover = 10 clauses, heap
    disjunctions above), over every well-formed snapshot (segments, pending deletions).  The
@@ -243,7 +243,8 @@ From Bluge Require Import Search.SearchersProofsTree Search.SearchersProofsGener
    child of a boolean with must clauses is advanced to targets below its cursor.  The fuel `run`
    provides is shown sufficient (the result is Ok).
    Still open (full statement: forall sn q, wf_sn sn -> run sn copts_default q = Ok (sem_numbers q sn)):
-   phrase, multi-term (prefix / range / fuzzy ...), match-all and doc-set leaves; the conjunction
+   phrase, multi-term (prefix / range / fuzzy ...) and doc-set leaves, a boolean with must-not clauses
+   only (match-all as the must searcher itself); the conjunction
    push-down (copts_default) for nested queries — it is proved for flat ones (search_exact_partial). *)
 Theorem search_exact_nested_partial : forall sn q d,
   wf_sn sn -> qok d q -> (2 * d + 1 <= depth_fuel q)%nat ->
@@ -272,7 +273,7 @@ Proof. exact searcher_spec_nested. Qed.
 Print Assumptions searcher_spec_nested_partial.
 
 (* the node-by-node contract behind both: for every depth d the clause-level family Cl d (term
-   searcher, match-none, booleans over conjunctions / slice and heap disjunctions of depth-(d-1)
+   searcher over index/postings.go, match-all over index/postings_all.go, match-none, booleans over conjunctions / slice and heap disjunctions of depth-(d-1)
    clauses) meets the whole contract for every fuel >= 2 d + 1: exact Next, exact forward Advance,
    a fresh searcher started with Next, the end reported again, and soundness outside the
    discipline (wk_adv / wk_next). *)
